@@ -171,7 +171,7 @@ Children ==
         Lam(<<"x">>, <<MapL(<< <<One, Two>> >>)>>), Lam(<<"x">>, <<Inf("+", Id("x"), One), Id("x")>>),
         Fn("", <<"x">>, FALSE, FALSE, <<Id("x")>>), Fn("g", <<"x">>, FALSE, FALSE, <<Id("x")>>),
         A, One, IntL("0"), FloatL("3ff8000000000000"), Raw(".5"), Raw("1."), StrB(<<97>>), StrB(<<>>), BoolL(TRUE),
-        Arr(<<One, Two>>), Arr(<<>>), MapL(<< <<One, Two>> >>), MapL(<<>>),
+        Arr(<<One, Two>>), Arr(<<>>), Arr(<<Inf(":", One, None)>>), MapL(<< <<One, Two>> >>), MapL(<<>>),
         IfElse(A, <<One>>, <<Two>>), If(A, <<One>>), For(A, <<One>>), Bi("len", <<A>>), Id("nil") >>
 
 \* ---- the sign family at depth 3: - + ++ -- in every nesting (adjacency of sign characters)
